@@ -167,11 +167,11 @@ func VC29_reset() {
 	VC29Requests = nil
 }
 
-// VC29_headers makes the headers of one caller: n keys of fixed length (contents symbolic), values of length 1
+// VC29_headers makes the headers of one caller: n keys of 2 and 3 bytes (contents symbolic), values of length 1
 func VC29_headers(p *VC29Prop, caller, n int, canonical bool) {
 	names := [2]string{"a", "b"}
 	for i := 0; i < n; i++ {
-		k := vNondetStringN("key"+names[i]+string(rune('0'+caller)), 2)
+		k := vNondetStringN("key"+names[i]+string(rune('0'+caller)), 2+i) // different lengths: the keys of one caller are distinct
 		v := vNondetStringN("val"+names[i]+string(rune('0'+caller)), 1)
 		vAssume(VC29_keyChars(k))
 		if canonical {
